@@ -50,6 +50,7 @@ Judge(r) ==
       t == Tags(r)
   IN  /\ Flag(C16_Gated(e, ver # -1), "C16", "Gated", r, t)
       /\ Flag(C16_Window(e), "C16", "Window", r, t)
+      /\ Flag(C16_Accepts(e, ver # -1, e.v < 17000 /\ kind \in PurgeKinds /\ pend), "C16", "Accepts", r, t)
       /\ Flag(C16_Inert(e, raw' = raw), "C16", "Inert", r, t)
       /\ Flag(C16_Preserves(e), "C16", "Preserves", r, t)
       /\ Flag(\A i \in store' : i[1] # "?", "DRIFT", "UnknownKey", r, t)
